@@ -15,7 +15,7 @@ CHECKS = {
         "followed by 0x40 fill, and equals the one-shot blocking of the data up to one optional fill-only block "
         "(Props/C04.lean, 12 theorems, no hypotheses). The model is tied to /repo on every run by differential execution "
         "on every residue x boundary length (quick) / every length 0..3036 (thorough) plus random histories, with an "
-        "independent oracle on the implementation's bytes.",
+        "independent oracle on the implementation's bytes. In addition a SOURCE TIE: harness/pytrans.py translates the current Python text of Block1014.write / finalise (methods, self made explicit) into Lean (Gen/Src.lean) on every run and lean/Cardutil/SrcTie/Block.lean proves, for all inputs, that the translation equals the model (and restates the property for the translated code); when the source changes so that this no longer checks, the check runs its thorough generators before answering (the correspondence remains the deciding tie).",
         "Trusted: Lean kernel; axioms propext/Classical.choice/Quot.sound; hand-written model of Block1014 (validated by the "
         "correspondence, sampled outside the enumerated sub-space); underlying file object appends (BytesIO).",
         "DESIGN.md §8 C04"),
@@ -26,7 +26,7 @@ CHECKS = {
         "through the unblocker equals record reading of the payload stream (C05_records, by simulation), and the one-shot "
         "unblocker succeeds exactly on well-blocked input, inverting the blocker up to fill (C05_unblock_*). Tied to /repo by "
         "differential execution over every delivered-residue x next-size pair (boundary set quick, all sizes thorough), "
-        "no-size reads, truncated files and every trailer corruption, plus an independent oracle.",
+        "no-size reads, truncated files and every trailer corruption, plus an independent oracle. In addition a SOURCE TIE: harness/pytrans.py translates the current Python text of Unblock1014.read (method, self made explicit) into Lean (Gen/Src.lean) on every run and lean/Cardutil/SrcTie/Unblock.lean proves, for all inputs, that the translation equals the model (and restates the property for the translated code); when the source changes so that this no longer checks, the check runs its thorough generators before answering (the correspondence remains the deciding tie).",
         "Trusted: Lean kernel; standard axioms; hand-written model of Unblock1014.read/unblock_1014 validated by the "
         "correspondence; the wrapped file returns full 1014-byte reads until EOF.",
         "DESIGN.md §8 C05"),
@@ -37,7 +37,7 @@ CHECKS = {
         "++ 00000000, the blocked file is well-blocked with that stream as payload, and reading returns exactly the records "
         "(Props/C03.lean). Tied to /repo by differential execution on all 6000 single-record lengths x both formats, "
         "boundary multi-record files, special contents and random lists through class API, write_many/with, and the "
-        "list/bytes convenience functions, with an independent layout oracle.",
+        "list/bytes convenience functions, with an independent layout oracle. In addition a SOURCE TIE: harness/pytrans.py translates the current Python text of Block1014.write / finalise (methods, self made explicit) into Lean (Gen/Src.lean) on every run and lean/Cardutil/SrcTie/Block.lean proves, for all inputs, that the translation equals the model (and restates the property for the translated code); when the source changes so that this no longer checks, the check runs its thorough generators before answering (the correspondence remains the deciding tie).",
         "Trusted: Lean kernel; standard axioms; hand-written models validated by the correspondence; struct.pack('>I') as 4 "
         "base-256 digits (< 2^32); MAX_VBS_RECORD_LENGTH re-translated from /repo each run.",
         "DESIGN.md §8 C03"),
@@ -113,7 +113,7 @@ CHECKS = {
         "table), loads returns a dictionary or the library error, the PDS/ICC walkers terminate, VBS/IPM readers over any "
         "file end in end-of-data or the library error, and the tool wrapper therefore returns normally or with a "
         "diagnostic (Props/C07.lean). Tied to /repo by ~30k structure-aware mutants, random bytes, mutated files and CLI "
-        "runs, each under a 2 s watchdog, compared with the model and an outcome oracle.",
+        "runs, each under a 2 s watchdog, compared with the model and an outcome oracle. In addition a SOURCE TIE: harness/pytrans.py translates the current Python text of iso8583._pds_to_dict and _icc_to_dict (while loops, fuel-indexed) into Lean (Gen/Src.lean) on every run and lean/Cardutil/SrcTie/Pds.lean proves, for all inputs, that the translation equals the model (and restates the property for the translated code); when the source changes so that this no longer checks, the check runs its thorough generators before answering (the correspondence remains the deciding tie).",
         "Trusted: Lean kernel; standard axioms; hand-written model incl. the modelled exception kinds of int(), decode, "
         "strptime, struct, unhexlify (validated by correspondence); configurations with a decimal field are excluded "
         "(explicit hypothesis ConfigOK).",
@@ -171,7 +171,7 @@ CHECKS = {
         "declared length, and the dictionary is the element-wise decoding of those contents; conversely any message that "
         "tiles and whose contents decode is accepted with that dictionary (Props/C08.lean). Tied to /repo by ~16k "
         "near-valid mutants (prefix digits, re-pointed lengths, zero lengths, bitmap flips incl. bits 1 and 128, "
-        "truncation/extension) against a strict reference decoder.",
+        "truncation/extension) against a strict reference decoder. In addition a SOURCE TIE: harness/pytrans.py translates the current Python text of iso8583._pds_to_dict and _icc_to_dict (while loops, fuel-indexed) into Lean (Gen/Src.lean) on every run and lean/Cardutil/SrcTie/Pds.lean proves, for all inputs, that the translation equals the model (and restates the property for the translated code); when the source changes so that this no longer checks, the check runs its thorough generators before answering (the correspondence remains the deciding tie).",
         "Trusted: as C01; PDS / TLV sub-element values cut short by the end of their carrier are accepted by the code and by the model (recorded, not forbidden by the property).",
         "DESIGN.md §8 C08"),
     'C12': (
@@ -181,7 +181,7 @@ CHECKS = {
         "fit; the i-th string becomes the i-th carrier in ascending element order; walking a carrier of whole entries "
         "returns exactly those entries (zero-length and header-like values included) (Props/C12.lean). Tied to /repo by "
         "every pair of value lengths at the 999 boundary (quick 998..1000, thorough 985..1005), 1..6 chunks, unsorted "
-        "insertion order, generated carrier sets; carriers read back with a PDS-less configuration.",
+        "insertion order, generated carrier sets; carriers read back with a PDS-less configuration. In addition a SOURCE TIE: harness/pytrans.py translates the current Python text of iso8583._pds_to_de, _pds_to_dict into Lean (Gen/Src.lean) on every run and lean/Cardutil/SrcTie/Pds.lean proves, for all inputs, that the translation equals the model (and restates the property for the translated code); when the source changes so that this no longer checks, the check runs its thorough generators before answering (the correspondence remains the deciding tie).",
         "Trusted: as C01. The key order is proved too (C12_ascending_order: the packed list is sorted by key text and is a "
         "permutation of the message's PDS entries; for 4-digit tags text order = numeric order).",
         "DESIGN.md §8 C12"),
